@@ -67,6 +67,26 @@ def table(tier, ck):
     return cases
 
 
+ETYPES = {"i8": [100, 127, -128, -100, 3, 0], "u8": [200, 255, 0, 17, 128, 1], "i16": [300, -300, 150, -32, 7, 0], "u16": [300, 256, 0, 129, 255, 2],
+          "i64": [1000, -1000, 4096, -7, 0, 12], "f32": [3, -2, 0, 100, -128, 7], "f64": [5, -9, 0, 200, 1, -1]}
+
+
+def typed_cases(r):
+    """operand element types: every pair of {int8, uint8, int16, uint16, int64, float, double} with values near the narrow types' limits; the result
+    must be what the C++ scalar operation yields on the promoted operands (no wrap-around in the operands' element type)"""
+    out = []
+    for ta in ETYPES:
+        for tb in ETYPES:
+            for op in ("add", "subtract", "multiply", "less", "maximum"):
+                for sa, sb in (([6], [6]), ([2, 3], [3])):
+                    da = [r.choice(ETYPES[ta]) for _ in range(prod(sa))]; db = [r.choice(ETYPES[tb]) for _ in range(prod(sb))]
+                    out.append(dict(op=op, shapes=[sa, sb], data=[da, db], args=dict(etypes=[ta, tb])))
+        for op in ("negative", "square"):
+            if ta.startswith("u") and op == "negative": continue         # negating an unsigned value
+            out.append(dict(op=op, shapes=[[6]], data=[list(ETYPES[ta])], args=dict(etypes=[ta])))
+    return out
+
+
 def where_cases():
     """Ternary where(c, x, y): broadcastable triples; condition values -1 / 0 / 1 (int) and -0.5 / 0 / 0.5 (float): true iff non-zero."""
     small = [[1], [3], [4], [1, 3], [2, 1], [2, 3], [3, 1], [2, 1, 3], [1, 1, 1, 3]]
@@ -146,7 +166,9 @@ def run(tier, seed):
     ck.add_mc(vlib.tlc_model_check("MC_Ufunc", "MC_Ufunc_" + tier, timeout=2400))
     tab = table(tier, ck)
     extra = seeded(ck, 1500 if tier == "quick" else 15000)
-    cases = opslib.number(tab + extra)
+    tc = typed_cases(ck.rng)
+    cases = opslib.number(tab + extra + tc)
+    ck.extra["typed_cases"] = len(tc)
     drv = vlib.build_driver("drv_ufunc")
     opslib.run_ops(ck, drv, cases, want="valid", label="ufunc", describe=lambda c, k: f"ufunc {c['op']} {k}")
     fc = opslib.number(fufunc_cases(ck, tier), start=len(cases))
@@ -160,7 +182,8 @@ def run(tier, seed):
     ck.rule = ("wiring: the recording operation mix(x,y)=(31x+17y+7) mod 10007 (non-commutative) through the generic ufunc machinery on every pair of shapes of the C06 scope "
                "(TLC export, compatible and incompatible, array and scalar operands) and outer on pairs of small shapes; every integer-computable named ufunc "
                f"({len(BIN)} binary, {len(UN)} unary incl. relu/relu6, 3 outer forms) on 12 wiring-revealing shape pairs with negative, zero and positive data inside the operation's domain, "
-               "result element class (bool/int) compared; seeded larger operands; ternary where(c,x,y) on every broadcastable triple of 9 shapes with integer (-1/0/1) and floating (-0.5/0/0.5) conditions. non-trivial = distinct (op, shapes) with different operand shapes")
+               "result element class (bool/int/float) compared; every pair of operand element types from {int8, uint8, int16, uint16, int64, float, double} with values near the narrow types' limits "
+               "under add / subtract / multiply / less / maximum (+ negative / square): the value must be the promoted C++ result; seeded larger operands; ternary where(c,x,y) on every broadcastable triple of 9 shapes with integer (-1/0/1) and floating (-0.5/0/0.5) conditions. non-trivial = distinct (op, shapes) with different operand shapes")
     ck.exhaustive = True
     ck.extra.update(table_cases=len(tab), seeded_cases=len(extra), ufuncs_named=len(BIN) + len(UN) + len(OUTER))
     ck.assumptions += ["transcendental / float-only ufuncs and activations are not interpreted by TLC: their scalar functors are outside this check (the shared wiring they use is covered by mix)",
